@@ -63,6 +63,31 @@ func (t *RawTarget) accept() {
 	}
 }
 
+var (
+	bigOnce, hugeOnce   sync.Once
+	bigBytes, hugeBytes []byte
+)
+
+// the two multi-megabyte responses are built once and shared by all targets of the process
+func (t *RawTarget) bigResponse() []byte {
+	bigOnce.Do(func() {
+		pad := bytes.Repeat([]byte("x"), t.BigSize)
+		bigBytes = okResponse(200, `{"tok":"j7","list":[1,2],"pad":"`+string(pad)+`"}`, longTok)
+	})
+	return bigBytes
+}
+
+func hugeHeaderResponse() []byte {
+	hugeOnce.Do(func() {
+		var b bytes.Buffer
+		b.WriteString("HTTP/1.1 200 OK\r\nX-Big: ")
+		b.Write(bytes.Repeat([]byte("h"), 12<<20))
+		b.WriteString("\r\nContent-Length: 2\r\n\r\nok")
+		hugeBytes = b.Bytes()
+	})
+	return hugeBytes
+}
+
 const goodBody = `{"tok":"j7","list":[1,2]}`
 const longTok = "h123456789012345"
 
@@ -115,9 +140,7 @@ func (t *RawTarget) serve(c net.Conn) {
 		case letter == "empty":
 			c.Write([]byte("HTTP/1.1 200 OK\r\nX-Tok: " + longTok + "\r\nContent-Length: 0\r\n\r\n"))
 		case letter == "big":
-			pad := bytes.Repeat([]byte("x"), t.BigSize)
-			body := `{"tok":"j7","list":[1,2],"pad":"` + string(pad) + `"}`
-			c.Write(okResponse(200, body, longTok))
+			c.Write(t.bigResponse())
 		case letter == "notjson":
 			c.Write(okResponse(200, "<<<tok: this is { not json", longTok))
 		case letter == "jsonarr":
@@ -141,9 +164,7 @@ func (t *RawTarget) serve(c net.Conn) {
 			c.Write([]byte("HTTP/1.1 200 OK\r\nthis line has no colon\r\n\x00\x01: x\r\n\r\nok"))
 			return
 		case letter == "hugeheader":
-			c.Write([]byte("HTTP/1.1 200 OK\r\nX-Big: "))
-			c.Write(bytes.Repeat([]byte("h"), 12<<20))
-			c.Write([]byte("\r\nContent-Length: 2\r\n\r\nok"))
+			c.Write(hugeHeaderResponse())
 			return
 		case letter == "closebefore":
 			return
